@@ -409,9 +409,9 @@ class Check:
         self.findings = load_findings(prop)
 
     # --- building
-    def build(self, translators=()):
+    def build(self, translators=(), oracle_name=None):
         self.proof = build_props(self.prop, translators)
-        path, log = build_oracle(self.prop)
+        path, log = build_oracle(oracle_name or self.prop)
         self.oracle_log = log
         if path:
             self.oracle = Oracle(path)
